@@ -31,14 +31,20 @@ impl Transport {
 		// an empty or inverted loop region can't be looped over (wrapping the
 		// position into it would never terminate), so it's treated as no loop
 		let loop_region = loop_region.filter(|(loop_start, loop_end)| loop_end > loop_start);
+		// when playing in reverse, a start position at or past the end of the
+		// sound leaves nothing to play (just like playing forward from there)
+		let (position, playing) = if reverse {
+			match num_frames.checked_sub(start_position + 1) {
+				Some(position) => (position, true),
+				None => (0, false),
+			}
+		} else {
+			(start_position, true)
+		};
 		Self {
-			position: if reverse {
-				num_frames - 1 - start_position
-			} else {
-				start_position
-			},
+			position,
 			loop_region,
-			playing: true,
+			playing,
 		}
 	}
 
